@@ -250,4 +250,26 @@ theorem enforceSequence_goal_met (sq : Seq) (a b : Nat) (st : Int) (hst : st ≠
   obtain ⟨e, he, hp⟩ := (C08.enforceSequence_passes_iff sq a b st hst s hab hb).2 ⟨hlen, hgoal⟩
   exact ⟨e, he, best_of_passes e (enforceSequence_le_best sq _ s e he) hp⟩
 
+/-- windowed EnforceGCContent: every full window within the bounds ⇒ score = best -/
+theorem gc_goal_met (mini maxi : Rat) (w : Nat) (hw : 1 ≤ w) (a b : Nat) (st : Int) (hst : st ≠ -1) (s : Seq)
+    (hab : a ≤ b) (hb : b ≤ s.length) (hgoal : ∀ i, i + w ≤ b - a → C08.GcOk mini maxi w s (a + i)) :
+    ∃ e, evaluate (.gc mini maxi (some w) ⟨a, b, st⟩) s = some e ∧ e.score = 0 := by
+  obtain ⟨e, he, hp⟩ := (C08.gc_passes_iff mini maxi w hw a b st hst s hab hb).2 hgoal
+  exact ⟨e, he, best_of_passes e (gc_le_best mini maxi _ _ s e he) hp⟩
+
+/-- AvoidStopCodons: no codon of the frame is a stop (and all translate) ⇒ score = best -/
+theorem stopCodons_goal_met (tbl : Nat) (t : Gen.CodonTable) (ht : tableOf tbl = some t) (a m : Nat) (st : Int)
+    (hst : st ≠ -1) (s : Seq) (hb : a + 3 * m ≤ s.length) (hgoal : ∀ j, j < m → C08.CodonOk t (win s (a + 3 * j) 3)) :
+    ∃ e, evaluate (.stopCodons (K := Rat) tbl ⟨a, (a + 3 * m : Nat), st⟩) s = some e ∧ e.score = 0 := by
+  obtain ⟨e, he, hp⟩ := (C08.stopCodons_passes_iff tbl t ht a m st hst s hb).2 hgoal
+  exact ⟨e, he, best_of_passes e (stopCodons_le_best tbl _ s e he) hp⟩
+
+/-- EnforceTranslation (no start-codon policy): every codon translates to its residue ⇒ score = best -/
+theorem translation_goal_met (tbl : Nat) (t : Gen.CodonTable) (ht : tableOf tbl = some t) (tr : Seq) (a m : Nat) (st : Int)
+    (hst : st ≠ -1) (s : Seq) (hb : a + 3 * m ≤ s.length) (hm : m ≤ tr.length)
+    (hgoal : ∀ j, j < m → ∃ x, translateCodon t (win s (a + 3 * j) 3) = some x ∧ tr[j]? = some x) :
+    ∃ e, evaluate (.translation (K := Rat) tbl .none tr ⟨a, (a + 3 * m : Nat), st⟩) s = some e ∧ e.score = 0 := by
+  obtain ⟨e, he, hp⟩ := (C08.translation_passes_iff tbl t ht tr a m st hst s hb).2 ⟨hm, hgoal⟩
+  exact ⟨e, he, best_of_passes e (translation_le_best tbl _ tr _ s e he) hp⟩
+
 end Dna.C20
